@@ -12,6 +12,7 @@ package main
 // against one writer; the recorded history is checked read by read.
 
 import (
+	"bufio"
 	"bytes"
 	"context"
 	"errors"
@@ -42,17 +43,35 @@ var schedPoints = []string{"FirstIndex.checked", "LastIndex.checked", "GetLog.ch
 
 const schedSegSize = 4096
 
-func schedPayload(idx uint64, tag uint64, big bool) []byte {
-	n := 16
-	if big {
-		n = 4200
-	}
+// size classes of an entry: 0 = 16 bytes, 1 = 4200 (fills the 4 KiB segment), 2 = 100 KiB
+// (larger than the 64 KiB pooled read buffer), 3 = 32 KiB (40 of them exceed 1 MiB)
+func schedPayloadN(idx uint64, tag uint64, n int) []byte {
 	b := make([]byte, n)
 	for i := range b {
 		b[i] = byte(idx*31 + tag*7 + uint64(i))
 	}
 	copy(b, fmt.Sprintf("%04x:%04x;", idx, tag))
 	return b
+}
+
+func schedPayload(idx uint64, tag uint64, big bool) []byte {
+	if big {
+		return schedPayloadN(idx, tag, 4200)
+	}
+	return schedPayloadN(idx, tag, 16)
+}
+
+func payloadOK(idx uint64, d []byte) bool {
+	if len(d) < 10 || string(d[:5]) != fmt.Sprintf("%04x:", idx) {
+		return false
+	}
+	tag := parseU(string(d[5:9]))
+	for i := 10; i < len(d); i++ {
+		if d[i] != byte(idx*31+tag*7+uint64(i)) {
+			return false
+		}
+	}
+	return true
 }
 
 type walEnv struct {
@@ -290,19 +309,19 @@ func runOp(o *opCtx, r *role, op string) (out string) {
 		if err != nil {
 			return rec(classify(err))
 		}
-		if l.Index != arg || len(l.Data) < 10 || string(l.Data[:5]) != fmt.Sprintf("%04x:", arg) {
+		if l.Index != arg || !payloadOK(arg, l.Data) {
 			return rec("wrongdata")
 		}
 		return rec(fmt.Sprintf("ok:%x", parseU(string(l.Data[5:9]))))
 	case 'S', 'B': // S<seal>[_<tag>_<n>] append n entries at last+1; B<idx>: first append at idx (base reset)
-		big, tag, n := false, uint64(0), uint64(1)
+		class, tag, n := "0", uint64(0), uint64(1)
 		v := h.cur().clone()
 		idx := v.next
 		if op[0] == 'B' {
 			idx = arg
 		} else {
 			f := strings.Split(op[1:], "_")
-			big = f[0] == "1"
+			class = f[0]
 			if len(f) == 3 {
 				tag, n = parseU(f[1]), parseU(f[2])
 			}
@@ -310,7 +329,16 @@ func runOp(o *opCtx, r *role, op string) (out string) {
 		var logs []*raft.Log
 		h.mu.Lock()
 		for i := uint64(0); i < n; i++ {
-			logs = append(logs, &raft.Log{Index: idx + i, Term: 1, Type: raft.LogCommand, Data: schedPayload(idx+i, tag, big && i == n-1)})
+			size := 16
+			switch {
+			case class == "1" && i == n-1:
+				size = 4200
+			case class == "2" && i == n-1:
+				size = 100 * 1024
+			case class == "3":
+				size = 32 * 1024
+			}
+			logs = append(logs, &raft.Log{Index: idx + i, Term: 1, Type: raft.LogCommand, Data: schedPayloadN(idx+i, tag, size)})
 			h.pending = append(h.pending, [2]uint64{idx + i, tag})
 		}
 		h.mu.Unlock()
@@ -387,31 +415,62 @@ func splitProg(s string) []string {
 	return strings.Split(s, ".")
 }
 
-// execSchedCase runs one forced schedule.
+// execSchedCase runs one forced schedule; a run in which a goroutine outside the
+// scheduler's control performed a rotation step is void and repeated.
 func execSchedCase(c *ctx, line, prop string, f []string) string {
+	for attempt := 0; ; attempt++ {
+		var buf bytes.Buffer
+		sub := &ctx{out: bufio.NewWriter(&buf), seed: c.seed, n: c.n, tier: c.tier, stats: map[string]int{}, work: c.work, curID: c.curID}
+		obs, void := execSchedOnce(sub, line, prop, f)
+		if void && attempt < 3 {
+			c.stat("void_case_retried")
+			continue
+		}
+		sub.out.Flush()
+		c.out.Write(buf.Bytes())
+		for k, v := range sub.stats {
+			c.stats[k] += v
+		}
+		return obs
+	}
+}
+
+func execSchedOnce(c *ctx, line, prop string, f []string) (string, bool) {
 	if len(f) != 3 {
-		return "badinput"
+		return "badinput", false
 	}
 	setup, progs, schedule := splitProg(f[0]), strings.Split(f[1], ","), f[2]
 	baseG := runtime.NumGoroutine()
 	vfs, meta := newMemVFS(), newMemMeta()
 	hist := newHistory()
 	vfs.onSynced = hist.onSynced
+	// rotation goroutines of earlier cases (all their WALs are closed) must be gone before
+	// this case adopts "the" rotation goroutine
+	for k := 0; k < 2000 && countGoroutines("raft-wal.(*WAL).runRotate") > 0; k++ {
+		time.Sleep(50 * time.Microsecond)
+	}
 	oldRot := gidsMatching("raft-wal.(*WAL).runRotate")
 	env, err := openEnv(vfs, meta)
 	if err != nil {
-		return "openerr"
+		return "openerr", false
 	}
 	o := &opCtx{env: env, h: hist}
 	for _, op := range setup {
 		if out := runOp(o, nil, op); !strings.HasPrefix(out, "ok") {
 			env.w.Close()
-			return "setuperr:" + out
+			return "setuperr:" + out, false
 		}
 		env.waitRotation()
 	}
-	s := newScheduler(schedPoints)
+	points := schedPoints
+	if strings.HasPrefix(line, "#") {
+		points = append(append([]string(nil), schedPoints...), "vfs.read")
+	}
+	s := newScheduler(points)
 	vfs.syncHook = s.hook
+	if strings.HasPrefix(line, "#") {
+		vfs.readHook = s.hook
+	}
 	outs := make([][]string, len(progs))
 	for i, p := range progs {
 		i, ops := i, splitProg(p)
@@ -471,6 +530,7 @@ func execSchedCase(c *ctx, line, prop string, f []string) string {
 	}
 	s.uninstall()
 	vfs.syncHook = nil
+	vfs.readHook = nil
 	// ---- oracles that do not depend on the model ---------------------------------
 	closed := false
 	for i, p := range progs {
@@ -564,30 +624,49 @@ func execSchedCase(c *ctx, line, prop string, f []string) string {
 	if os.Getenv("WH_TRACE") != "" {
 		fmt.Fprintf(os.Stderr, "%s\n  %s\n", line, strings.Join(s.trace, " "))
 	}
-	return sb.String()
+	return sb.String(), atomic.LoadInt32(&s.stray) != 0
 }
 
 // reopenCheck: what the reference log holds must be readable after Open.
 func reopenCheck(c *ctx, prop, line string, vfs *memVFS, meta *memMeta, want specLog) {
 	closesBefore := meta.closes
-	env2, err := openEnv(vfs, meta)
-	if err != nil {
-		c.witness(prop, "reopen", "Open after Close fails: "+err.Error(), line)
-		return
-	}
-	o2 := &opCtx{env: env2, h: newHistory()}
-	for idx, tag := range want.tags {
-		w := fmt.Sprintf("ok:%x", tag)
-		if out := runOp(o2, nil, fmt.Sprintf("G%x", idx)); out != w {
-			c.witness(prop, "acked-lost", fmt.Sprintf("entry %d acknowledged before Close: after reopen GetLog gives %s", idx, out), line)
-			break
+	defer func() { meta.closes = closesBefore }()
+	// two Open/Close cycles: what the first Open repairs (e.g. a rotation that was pending
+	// at Close) must itself survive a clean Close and the next Open
+	for cycle := 1; cycle <= 2; cycle++ {
+		env2, err := openEnv(vfs, meta)
+		if err != nil {
+			c.witness(prop, fmt.Sprintf("reopen%d", cycle), fmt.Sprintf("Open #%d after Close fails: %s", cycle, err.Error()), line)
+			return
+		}
+		o2 := &opCtx{env: env2, h: newHistory()}
+		idxs := make([]uint64, 0, len(want.tags))
+		for idx := range want.tags {
+			idxs = append(idxs, idx)
+		}
+		sort.Slice(idxs, func(a, b int) bool { return idxs[a] < idxs[b] })
+		bad := false
+		for _, idx := range idxs {
+			w := fmt.Sprintf("ok:%x", want.tags[idx])
+			if out := runOp(o2, nil, fmt.Sprintf("G%x", idx)); out != w {
+				c.witness(prop, fmt.Sprintf("acked-lost%d", cycle), fmt.Sprintf("entry %d acknowledged before Close: after reopen #%d GetLog gives %s", idx, cycle, out), line)
+				bad = true
+				break
+			}
+		}
+		if out := runOp(o2, nil, "L"); out != fmt.Sprintf("ok:%x", want.last) {
+			c.witness(prop, fmt.Sprintf("acked-last%d", cycle), fmt.Sprintf("after reopen #%d LastIndex gives %s, acknowledged last is %d", cycle, out, want.last), line)
+			bad = true
+		}
+		if out := runOp(o2, nil, "F"); out != fmt.Sprintf("ok:%x", want.first) {
+			c.witness(prop, fmt.Sprintf("acked-first%d", cycle), fmt.Sprintf("after reopen #%d FirstIndex gives %s, expected %d", cycle, out, want.first), line)
+			bad = true
+		}
+		env2.w.Close()
+		if bad {
+			return
 		}
 	}
-	if out := runOp(o2, nil, "L"); out != fmt.Sprintf("ok:%x", want.last) {
-		c.witness(prop, "acked-last", fmt.Sprintf("after reopen LastIndex gives %s, acknowledged last is %d", out, want.last), line)
-	}
-	env2.w.Close()
-	meta.closes = closesBefore
 }
 
 // ---- free-running stress (C06) ------------------------------------------------------
@@ -615,6 +694,7 @@ func execStress(c *ctx, line string, f []string) string {
 		defer wg.Done()
 		r := rand.New(rand.NewSource(seed))
 		tag := uint64(0)
+		nBig, nHuge := 0, 0
 		for time.Now().Before(deadline) && nWrites < 30000 {
 			v := hist.cur()
 			n := v.last - v.first + 1
@@ -632,6 +712,12 @@ func execStress(c *ctx, line string, f []string) string {
 				op = fmt.Sprintf("D%x", v.last) // whole log
 			case n == 0 && k < 60:
 				op = fmt.Sprintf("B%x", v.next+1+uint64(r.Intn(5)))
+			case k >= 97 && nBig < 40:
+				nBig++
+				op = fmt.Sprintf("S2_%x_1", tag%0xffff) // one 100 KiB entry
+			case k == 96 && nHuge < 12:
+				nHuge++
+				op = fmt.Sprintf("S3_%x_28", tag%0xffff) // 40 x 32 KiB in one batch
 			default:
 				seal := 0
 				if r.Intn(6) == 0 {
@@ -925,6 +1011,19 @@ func genSchedC06(c *ctx, emit func(string)) {
 			th = append(th, strings.Join(p, "."))
 		}
 		out(setups[r.Intn(len(setups))], strings.Join(th, ","), randSchedule(r, len(th)+1, 20+r.Intn(80)))
+	}
+	// entries larger than the 64 KiB pooled read buffer, read by two readers; a batch above
+	// 1 MiB (40 x 32 KiB) observed by concurrent LastIndex / GetLog at every append-level point
+	for i := 0; i < 10; i++ {
+		out("S0.S2_5_1.S0", "S0_6_1,G2.G1.G2,G2.G3.G2", randSchedule(r, 4, 30+r.Intn(30)))
+	}
+	for b := 0; b <= 9; b++ {
+		out("S0.S0", "S3_9_28,L.L,G4.L", rep("0", b)+"1112"+rep("0", 1)+"12"+rep("0", 1)+"1212"+rep("0", 40)+rep("3", 8)+"11112222")
+	}
+	// the same with the reader parked after ReadAt filled its buffer (extra point vfs.read,
+	// implementation only): another reader's complete GetLog runs in between
+	for i := 0; i < 10; i++ {
+		emit(fmt.Sprintf("#sched c06 S0.S2_5_1.S0.S0 G2.G1.G2.G3,G2.G3.G2.G1,G2.G2.G1 %s", randSchedule(r, 4, 60)))
 	}
 	// base-index reset (not in the model): implementation-only, judged by the history check
 	for i := 0; i < 12; i++ {
